@@ -343,9 +343,9 @@ Section Outer.
   Lemma able_data st t v vn s : same_data s (able E cf st t v vn s).
   Proof. unfold able, same_data; stsimpl. repeat split; auto. Qed.
   Lemma able_va st t v vn s :
-    va (able E cf st t v vn s) = set_flags (c_vname cf) st vn (set_flags (c_vtag cf) st v (va s)).
+    va (able E cf st t v vn s) = set_flags E (c_vname cf) st vn (set_flags E (c_vtag cf) st v (va s)).
   Proof. reflexivity. Qed.
-  Lemma able_ta st t v vn s : ta (able E cf st t v vn s) = set_flags (c_ttag cf) st t (ta s).
+  Lemma able_ta st t v vn s : ta (able E cf st t v vn s) = set_flags E (c_ttag cf) st t (ta s).
   Proof. reflexivity. Qed.
   Lemma able_none st s : able E cf st None None None s = s.
   Proof. destruct s; reflexivity. Qed.
